@@ -8,7 +8,7 @@ Definition mexiting (p : mpc) : bool := match p with MExit | MDone => true | _ =
 Definition cjoinedM (p : cpc) : bool := match p with CJoinP | CFinal | CRet => true | _ => false end.
 Definition cjoinedP (p : cpc) : bool := match p with CFinal | CRet => true | _ => false end.
 
-Ltac zs := cbn [pz mexiting cjoinedM cjoinedP z_top z_mid z_base z_closed z_armed z_incc z_out z_onext z_oready z_q z_lk z_mp z_pongs z_pp z_cp z_wwait z_wwoken z_wsort z_wclcur z_wclold z_wok z_werr z_nsyn z_nasy z_nans z_naret z_nerr set_top set_mid set_base set_closed set_armed set_incc set_out set_onext set_oready set_q set_lk set_mp set_pongs set_pp set_cp set_wwait set_wwoken set_wsort set_wclcur set_wclold set_wok set_werr set_nsyn set_nasy set_nans set_naret set_nerr] in *.
+Ltac zs := cbn [pz mexiting cjoinedM cjoinedP z_top z_mid z_base z_closed z_armed z_incc z_out z_onext z_oready z_q z_lk z_mp z_pongs z_hp z_pp z_cp z_wwait z_wwoken z_wsort z_wclcur z_wclold z_wok z_werr z_nsyn z_nasy z_nans z_naret z_nerr set_top set_mid set_base set_closed set_armed set_incc set_out set_onext set_oready set_q set_lk set_mp set_pongs set_hp set_pp set_cp set_wwait set_wwoken set_wsort set_wclcur set_wclold set_wok set_werr set_nsyn set_nasy set_nans set_naret set_nerr] in *.
 
 Ltac b2p :=
   repeat match goal with
@@ -251,424 +251,57 @@ Proof.
 Qed.
 
 (* ------------------------------------------------------------------ *)
-(* (2) progress while the collection is open *)
+(* the repaired sleep decision of the merger (collection_merger.go 683d401: handoverPending,
+   retryHandover): (K1) past a hand-over attempt that left something in stackDirtyMid the
+   merger remembers it; (K2) a sleeping merger with unpersisted stackDirtyMid, an idle
+   persister and an empty stackDirtyBase can be woken.  Not invariants of LMMergeFail: a
+   failed merge skips the hand-over attempt and clears the flag (`continue OUTER`). *)
+Definition afterh (p : mpc) : bool :=
+  match p with MReply | MCheck | MWaitOut _ => true | _ => false end.
 
-(* persister: steps until it has closed the outgoing channel the merger waits on *)
-Definition dP (s : state) : nat :=
-  if z_oready s then 0 else
-  match z_pp s with
-  | PCloseOut (Some g) =>
-      match z_mp s with MWaitOut g' => if g =? g' then 1 else 7 | _ => 7 end
-  | PTop | PWoken => 6 | PChk => 5 | PUpdate => 4 | PPublish => 3
-  | _ => 7
-  end.
+Definition invK (s : state) : Prop :=
+  (c_ll c = true -> z_mid s = true -> afterh (z_mp s) = true -> z_hp s = true) /\
+  (c_ll c = true -> z_mp s = MSelect -> z_mid s = true -> z_base s = false -> z_pp s = PWait ->
+   length (z_q s) = 0 -> z_incc s = false -> 0 < z_wclcur s).
 
-(* merger: steps until it has ingested / answered its pongs / drained the queue *)
-Definition dI (s : state) : nat :=
-  match z_mp s with
-  | MIngest => 1 | MDrain => 2 | MSelect => 3 | MCheck => 4 | MReply => 5
-  | MWaitOut _ => 6 + dP s | MHandover => 14 | MMerge => 15 | _ => 0 end.
-Definition dR (s : state) : nat :=
-  match z_mp s with
-  | MReply => 1 | MWaitOut _ => 2 + dP s | MHandover => 10 | MMerge => 11 | MIngest => 12
-  | MDrain => 13 | MSelect => 14 | MCheck => 15 | _ => 0 end.
-Definition dDr (s : state) : nat :=
-  match z_mp s with
-  | MDrain => 1 | MSelect => 2 | MCheck => 3 | MReply => 4 | MWaitOut _ => 5 + dP s
-  | MHandover => 13 | MMerge => 14 | MIngest => 15 | _ => 0 end.
+Lemma invK_init : invK (init c).
+Proof. unfold invK, init; zs. split; intros; discriminate. Qed.
 
-(* the farthest of the merger events some caller in flight is waiting for:
-   writers held back by a full top need the ingest, senders held back by a full queue
-   the drain, queued synchronous pings the drain and then the reply, collected ones
-   the reply *)
-Definition muD (s : state) : nat :=
-  Nat.max
-    (Nat.max (if 0 <? z_wwait s + (if z_top s <? c_cap c then 0 else z_wwoken s) then dI s else 0)
-             (if 0 <? (if room c s then 0 else z_nsyn s + z_nasy s) then dDr s else 0))
-    (Nat.max (if 0 <? nsync (z_q s) then dDr s + 12 else 0)
-             (if 0 <? z_pongs s then dR s else 0)).
-
-(* weighted measure: callers not yet accepted weigh more than a whole merger cycle *)
-Definition mu_o (s : state) : nat :=
-  30 * (z_wwait s + z_wwoken s + z_nsyn s + z_nasy s) + z_wclcur s + z_wclold s + muD s.
-
-(* some call has been made and has not returned *)
-Definition pending (s : state) : Prop :=
-  0 < z_wwait s + z_wwoken s + z_wclcur s + z_wclold s + z_nsyn s + z_nasy s
-      + nsync (z_q s) + z_pongs s.
-
-Ltac step_none H :=
-  unfold step, step_gen, guard in H;
-  repeat match type of H with
-    | (match ?x with _ => _ end) = None =>
-        let E := fresh "E" in destruct x eqn:E; try discriminate H
-    end.
-
-Ltac take s l :=
-  let Hs := fresh "Hs" in
-  destruct (step c s l) as [?s'|] eqn:Hs;
-  [ eexists l, _; split; [reflexivity | split; [exact Hs|]]; step_cases Hs
-  | exfalso; step_none Hs ].
-
-Ltac bool_cases := repeat match goal with
-  | |- context[if ?x then _ else _] => let E := fresh "E" in destruct x eqn:E end.
-Ltac pp_cases := repeat match goal with
-  | |- context[match z_pp ?x with _ => _ end] => let E := fresh "E" in destruct (z_pp x) eqn:E end.
-Ltac rwall := repeat match goal with
-  | E : z_mp ?s = _ |- _ => rewrite E in *
-  | E : z_pp ?s = _ |- _ => rewrite E in *
-  | E : z_q ?s = _ |- _ => rewrite E in *
-  | E : z_closed ?s = _ |- _ => rewrite E in *
-  end.
-
-Lemma muD_bound s : muD s <= 27.
+Lemma invK_step s l s' :
+  inv s -> invK s -> l <> LMMergeFail -> step c s l = Some s' -> invK s'.
 Proof.
-  unfold muD, dI, dR, dDr, dP.
-  destruct (z_mp s); zs; bool_cases; try lia; pp_cases; bool_cases; try lia;
-  repeat match goal with |- context[match ?x with _ => _ end] => destruct x end; bool_cases; lia.
+  intros I K NF H. unfold inv in I. unfold invK in *. destruct K as [K1 K2].
+  destruct l; try congruence; step_cases H.
+  all: unfold writer_enter, broadcast_base, broadcast_top, room in *; zs.
+  all: goal_cases; zs; cbn [afterh length] in *.
+  all: split; intros; subst; zs; try discriminate; try congruence;
+       try (rewrite app_length in *; cbn [length] in *; lia).
+  all: try (match goal with H : orphan_nth _ _ = Some _ |- _ =>
+              apply orphan_nsync in H; destruct H as [_ H]; try rewrite H in * end).
+  all: b2p; sat; try triv.
+  all: try (destruct (z_armed s) eqn:?; sat; triv).
+  all: repeat match goal with E : z_mp ?s = _ |- _ => rewrite E in * end; cbn [afterh] in *;
+       try discriminate; sat; try triv.
 Qed.
 
-Ltac ounf := unfold mu_o, muD, dI, dR, dDr, dP, room, writer_enter, broadcast_top, broadcast_base in *; zs.
-(* steps that accept a caller: the weight 30 pays for whatever happens to muD *)
-Ltac adec := subst;
-  match goal with |- mu_o ?x < mu_o ?y => generalize (muD_bound x) end;
-  unfold mu_o, writer_enter, room in *; zs; bool_cases; zs; b2p; intros; try lia.
-(* merger / persister steps *)
-Ltac hyp_cases := repeat match goal with
-  | H : context[if ?x then _ else _] |- _ => let E := fresh "E" in destruct x eqn:E end.
-Ltac inj := repeat match goal with
-  | H : _ :: _ = _ :: _ |- _ => injection H as ? ?; subst end.
-Ltac odec := subst; ounf; rwall; inj; zs; cbn [nsync length] in *; bool_cases; zs; b2p; try lia;
-  hyp_cases; b2p; try lia; try (exfalso; congruence).
+Definition reachable_nf (s : state) : Prop :=
+  exists ls, ~ In LMMergeFail ls /\ run c (init c) ls = Some s.
 
-Lemma dP_bound s : dP s <= 7.
+Lemma invK_run ls : forall s s',
+  inv s -> invK s -> ~ In LMMergeFail ls -> run c s ls = Some s' -> inv s' /\ invK s'.
 Proof.
-  unfold dP. destruct (z_oready s); [lia|]. destruct (z_pp s); try lia.
-  destruct g; try lia. destruct (z_mp s); try lia. destruct (_ =? _); lia.
+  induction ls as [|l r IH]; intros s s' I K NF H; unfold run in H; simpl in H.
+  - injection H as <-; auto.
+  - destruct (step_gen MutNone c s l) eqn:E; [|discriminate].
+    eapply IH; [| | |exact H].
+    + eapply inv_step; eauto.
+    + eapply invK_step; eauto. intros ->. apply NF. left; reflexivity.
+    + intros X. apply NF. right; exact X.
 Qed.
 
-Lemma bb_top s : z_top (broadcast_base s) = z_top s.
-Proof. unfold broadcast_base; destruct (z_pp s); reflexivity. Qed.
-Lemma bb_wwait s : z_wwait (broadcast_base s) = z_wwait s.
-Proof. unfold broadcast_base; destruct (z_pp s); reflexivity. Qed.
-Lemma bb_wwoken s : z_wwoken (broadcast_base s) = z_wwoken s.
-Proof. unfold broadcast_base; destruct (z_pp s); reflexivity. Qed.
-Lemma bb_q s : z_q (broadcast_base s) = z_q s.
-Proof. unfold broadcast_base; destruct (z_pp s); reflexivity. Qed.
-Lemma bb_nsyn s : z_nsyn (broadcast_base s) = z_nsyn s.
-Proof. unfold broadcast_base; destruct (z_pp s); reflexivity. Qed.
-Lemma bb_nasy s : z_nasy (broadcast_base s) = z_nasy s.
-Proof. unfold broadcast_base; destruct (z_pp s); reflexivity. Qed.
-Lemma bb_pongs s : z_pongs (broadcast_base s) = z_pongs s.
-Proof. unfold broadcast_base; destruct (z_pp s); reflexivity. Qed.
-Lemma bb_wclcur s : z_wclcur (broadcast_base s) = z_wclcur s.
-Proof. unfold broadcast_base; destruct (z_pp s); reflexivity. Qed.
-Lemma bb_wclold s : z_wclold (broadcast_base s) = z_wclold s.
-Proof. unfold broadcast_base; destruct (z_pp s); reflexivity. Qed.
-Lemma bb_out s : z_out (broadcast_base s) = z_out s.
-Proof. unfold broadcast_base; destruct (z_pp s); reflexivity. Qed.
-Lemma bb_mid s : z_mid (broadcast_base s) = z_mid s.
-Proof. unfold broadcast_base; destruct (z_pp s); reflexivity. Qed.
-Lemma bb_base s : z_base (broadcast_base s) = z_base s.
-Proof. unfold broadcast_base; destruct (z_pp s); reflexivity. Qed.
-Lemma bb_oready s : z_oready (broadcast_base s) = z_oready s.
-Proof. unfold broadcast_base; destruct (z_pp s); reflexivity. Qed.
-Lemma bb_mp s : z_mp (broadcast_base s) = z_mp s.
-Proof. unfold broadcast_base; destruct (z_pp s); reflexivity. Qed.
-Lemma bb_closed s : z_closed (broadcast_base s) = z_closed s.
-Proof. unfold broadcast_base; destruct (z_pp s); reflexivity. Qed.
-Lemma bb_cp s : z_cp (broadcast_base s) = z_cp s.
-Proof. unfold broadcast_base; destruct (z_pp s); reflexivity. Qed.
-Ltac bbr := rewrite ?bb_top, ?bb_wwait, ?bb_wwoken, ?bb_q, ?bb_nsyn, ?bb_nasy, ?bb_pongs, ?bb_wclcur, ?bb_wclold, ?bb_out, ?bb_mid, ?bb_base, ?bb_oready, ?bb_mp, ?bb_closed.
-Ltac absdP := repeat match goal with
-  | |- context[dP ?x] => generalize (dP_bound x); generalize (dP x); intros ? ? end.
-Ltac out_cases := repeat match goal with
-  | |- context[match z_out ?x with _ => _ end] => let E := fresh "E" in destruct (z_out x) eqn:E end.
-Ltac odec_h := subst; repeat match goal with H : _ /\ _ |- _ => clear H end;
-  unfold mu_o, muD, dI, dR, dDr, room in *; zs; rwall; zs; bbr; zs;
-  bool_cases; zs; bbr; zs; out_cases; zs; bbr; zs;
-  bool_cases; absdP; b2p; try lia; hyp_cases; b2p; try lia.
+Theorem reachable_nf_inv s : reachable_nf s -> inv s /\ invK s.
+Proof. intros (ls & NF & H). eapply invK_run; eauto using inv_init, invK_init. Qed.
 
-Definition same_callers (s s' : state) : Prop :=
-  z_top s' = z_top s /\ z_wwait s' = z_wwait s /\ z_wwoken s' = z_wwoken s /\ z_q s' = z_q s /\
-  z_nsyn s' = z_nsyn s /\ z_nasy s' = z_nasy s /\ z_pongs s' = z_pongs s /\
-  z_wclcur s' = z_wclcur s /\ z_wclold s' = z_wclold s.
-
-(* some caller in flight waits for a merger event *)
-Definition needs (s : state) : bool :=
-  (0 <? z_wwait s + (if z_top s <? c_cap c then 0 else z_wwoken s)) ||
-  (0 <? (if room c s then 0 else z_nsyn s + z_nasy s)) ||
-  (0 <? nsync (z_q s)) || (0 <? z_pongs s).
-
-Lemma move_dec s s' :
-  same_callers s s' -> needs s = true ->
-  dI s' < dI s -> dR s' < dR s -> dDr s' < dDr s -> mu_o s' < mu_o s.
-Proof.
-  intros (A1&A2&A3&A4&A5&A6&A7&A8&A9) N HI HR HD.
-  unfold mu_o, muD, needs, room in *. rewrite A1, A2, A3, A4, A5, A6, A7, A8, A9.
-  destruct (0 <? z_wwait s + (if z_top s <? c_cap c then 0 else z_wwoken s));
-  destruct (0 <? (if length (z_q s) <? c_qcap c then 0 else z_nsyn s + z_nasy s));
-  destruct (0 <? nsync (z_q s)); destruct (0 <? z_pongs s); simpl in N; try discriminate; lia.
-Qed.
-
-Lemma needs_of_pending s :
-  pending s -> z_wclcur s = 0 -> z_wclold s = 0 ->
-  (0 <? z_wwoken s) && (z_top s <? c_cap c) = false ->
-  (0 <? z_nsyn s) && room c s = false -> (0 <? z_nasy s) && room c s = false ->
-  needs s = true.
-Proof.
-  unfold pending, needs. intros P W1 W2 C3 C4 C5.
-  destruct (z_top s <? c_cap c) eqn:Et; destruct (room c s) eqn:Er;
-  rewrite ?andb_true_r, ?andb_false_r in *; b2p;
-  repeat match goal with |- context[?a <? ?b] => destruct (Nat.ltb_spec a b) end;
-  cbn [orb]; auto; lia.
-Qed.
-
-Lemma handover_mp s s' :
-  step c s LMHandover = Some s' -> same_callers s s' /\
-  (z_mp s' = MReply \/ exists g, z_mp s' = MWaitOut g).
-Proof.
-  intros H. step_cases H; unfold same_callers; zs.
-  - split; [repeat split|left]; reflexivity.
-  - bool_cases; zs; rewrite ?bb_out; zs; out_cases; zs; bbr; zs;
-    (split; [repeat split; reflexivity|]); eauto.
-Qed.
-
-Ltac ndec := zs; b2p; try lia; try congruence; sat; try triv.
-Ltac dd tac := match goal with |- False => ndec | _ => tac end.
-
-Theorem open_step s :
-  inv s -> z_closed s = false -> pending s ->
-  exists l s', bg l = true /\ step c s l = Some s' /\ mu_o s' < mu_o s.
-Proof.
-  intros I Cl P. unfold inv in I. unfold pending in P.
-  destruct (0 <? z_wclcur s) eqn:C1.
-  { take s LWCloseInc; timeout 30 (dd odec). }
-  destruct (0 <? z_wclold s) eqn:C2.
-  { take s LWCloseOld; timeout 30 (dd odec). }
-  destruct ((0 <? z_wwoken s) && (z_top s <? c_cap c)) eqn:C3.
-  { take s LWRecheck; timeout 30 (dd adec). }
-  destruct ((0 <? z_nsyn s) && room c s) eqn:C4.
-  { take s (LNSend true); timeout 30 (dd adec). }
-  destruct ((0 <? z_nasy s) && room c s) eqn:C5.
-  { take s (LNSend false); timeout 30 (dd adec). }
-  destruct (z_mp s) eqn:Emp.
-  - (* MReply *) take s LMReply; timeout 300 (dd odec).
-  - (* MCheck *)
-    assert (N : needs s = true).
-    { apply needs_of_pending; auto; unfold pending; b2p; try lia. }
-    take s LMCheck; [|ndec..].
-    destruct (z_top s =? 0) eqn:Et;
-    (apply move_dec; auto;
-     [unfold same_callers; zs; b2p; repeat split; try reflexivity; try lia| | |];
-     unfold dI, dR, dDr; zs; rwall; lia).
-  - (* MSelect *)
-    destruct (z_incc s) eqn:Ei.
-    { assert (N : needs s = true).
-      { apply needs_of_pending; auto; unfold pending; b2p; try lia. }
-      take s LMSelInc; [|ndec..].
-      apply move_dec; auto; [unfold same_callers; zs; repeat split; reflexivity| | |];
-      unfold dI, dR, dDr; zs; rwall; lia. }
-    destruct (z_q s) as [|b r] eqn:Eq.
-    { exfalso. unfold room in *. rewrite Eq in *. cbn [nsync length] in *.
-      assert (R0 : (0 <? c_qcap c) = true) by (apply Nat.ltb_lt; lia). rewrite R0 in *.
-      rewrite !andb_true_r in *. b2p; sat; zs; sat;
-      destruct (z_armed s) eqn:Ea; sat; try lia. }
-    take s LMSelPing; timeout 300 (dd odec).
-  - (* MDrain *) take s LMDrain; timeout 300 (dd odec).
-  - (* MIngest *) take s LMIngest; timeout 300 (dd odec).
-  - (* MMerge *)
-    assert (N : needs s = true).
-    { apply needs_of_pending; auto; unfold pending; b2p; try lia. }
-    take s LMMergeOk; [|ndec..].
-    apply move_dec; auto; [unfold same_callers; zs; repeat split; reflexivity| | |];
-    unfold dI, dR, dDr; zs; rwall; lia.
-  - (* MHandover *)
-    assert (N : needs s = true).
-    { apply needs_of_pending; auto; unfold pending; b2p; try lia. }
-    destruct (step c s LMHandover) as [s'|] eqn:Hs.
-    + exists LMHandover, s'. split; [reflexivity|split; [exact Hs|]].
-      destruct (handover_mp _ _ Hs) as [SC M].
-      pose proof (dP_bound s').
-      apply move_dec; auto; unfold dI, dR, dDr; rewrite Emp;
-      (destruct M as [M|[g M]]; rewrite M; lia).
-    + exfalso. step_none Hs; ndec.
-  - (* MWaitOut g *)
-    assert (N : needs s = true).
-    { apply needs_of_pending; auto; unfold pending; b2p; try lia. }
-    destruct (z_oready s) eqn:Er.
-    { exists LMOutWake, (set_mp MReply s). split; [reflexivity|]. split.
-      { unfold step, step_gen, guard. rewrite Emp, Er. reflexivity. }
-      apply move_dec; auto;
-        [unfold same_callers; zs; repeat split; reflexivity| | |];
-      unfold dI, dR, dDr, dP; zs; rewrite ?Emp, ?Er; zs; lia. }
-    destruct I as (I1&I2&I3&I3b&I4&I4b&I5&I6&I7&J1&J1b&J2&J3&J4&J5a&J5b&J5c&I9a&I9b&I10&I11&I12).
-    assert (Ho : z_pp s = PCloseOut (Some g) \/ z_out s = Some g).
-    { destruct (z_out s) as [x|] eqn:Eo.
-      - destruct (Nat.eq_dec x g); [subst; auto|]. left. apply (J2 g eq_refl); auto; congruence.
-      - left. apply (J2 g eq_refl); auto; congruence. }
-    assert (Hb : z_out s = Some g -> z_base s = true).
-    { intros Eo. apply J3; [congruence|]. rewrite (I9b Cl). discriminate. }
-    assert (SCs : forall p, same_callers s (set_pp p s)).
-    { intros p. unfold same_callers; zs; repeat split; reflexivity. }
-    destruct (z_pp s) eqn:Epp.
-    + (* PTop *)
-      destruct Ho as [Ho|Ho]; [discriminate|]. pose proof (Hb Ho) as Hbt.
-      exists LPTop, (set_pp PChk s). split; [reflexivity|]. split.
-      { unfold step, step_gen, guard. rewrite Epp, I2, Hbt. reflexivity. }
-      apply move_dec; auto; unfold dI, dR, dDr, dP; zs; rewrite ?Emp, ?Er, ?Epp; zs; lia.
-    + (* PWait *)
-      destruct Ho as [Ho|Ho]; [discriminate|]. pose proof (Hb Ho). pose proof (J1 eq_refl). congruence.
-    + (* PWoken *)
-      destruct Ho as [Ho|Ho]; [discriminate|]. pose proof (Hb Ho) as Hbt.
-      exists LPTop, (set_pp PChk s). split; [reflexivity|]. split.
-      { unfold step, step_gen, guard. rewrite Epp, I2, Hbt. reflexivity. }
-      apply move_dec; auto; unfold dI, dR, dDr, dP; zs; rewrite ?Emp, ?Er, ?Epp; zs; lia.
-    + (* PChk *)
-      exists LPChk, (set_pp PUpdate s). split; [reflexivity|]. split.
-      { unfold step, step_gen. rewrite Epp, Cl. reflexivity. }
-      apply move_dec; auto; unfold dI, dR, dDr, dP; zs; rewrite ?Emp, ?Er, ?Epp; zs; lia.
-    + (* PUpdate *)
-      exists LPUpdOk, (set_pp PPublish s). split; [reflexivity|]. split.
-      { unfold step, step_gen. rewrite Epp. reflexivity. }
-      apply move_dec; auto; unfold dI, dR, dDr, dP; zs; rewrite ?Emp, ?Er, ?Epp; zs; lia.
-    + (* PPublish *)
-      destruct Ho as [Ho|Ho]; [discriminate|].
-      eexists LPPublish, _. split; [reflexivity|]. split.
-      { unfold step, step_gen, guard. rewrite Epp, I2. reflexivity. }
-      apply move_dec; auto; [unfold same_callers; zs; repeat split; reflexivity| | |];
-      unfold dI, dR, dDr, dP; zs; rewrite ?Emp, ?Er, ?Epp, ?Ho; zs; rewrite ?Nat.eqb_refl; lia.
-    + (* PCloseOut *)
-      eexists LPCloseOut, _. split; [reflexivity|]. split.
-      { unfold step, step_gen. rewrite Epp, Emp. reflexivity. }
-      destruct g0 as [g0|].
-      * destruct (g0 =? g) eqn:Eg.
-        -- apply move_dec; auto; [unfold same_callers; zs; repeat split; reflexivity| | |];
-           unfold dI, dR, dDr, dP; zs; rewrite ?Emp, ?Er, ?Epp, ?Eg; zs; lia.
-        -- apply move_dec; auto;
-           unfold dI, dR, dDr, dP; zs; rewrite ?Emp, ?Er, ?Epp, ?Eg; zs; lia.
-      * apply move_dec; auto;
-        unfold dI, dR, dDr, dP; zs; rewrite ?Emp, ?Er, ?Epp; zs; lia.
-    + (* PSendLocked *) congruence.
-    + (* PDone *)
-      destruct Ho as [Ho|Ho]; [discriminate|].
-      destruct (c_ll c) eqn:El.
-      * pose proof (J4 eq_refl eq_refl). congruence.
-      * pose proof (J5b eq_refl). congruence.
-  - (* MExit *) exfalso. sat. zs. sat. congruence.
-  - (* MDone *) exfalso. sat. zs. sat. congruence.
-Qed.
-
-(* from the measure: a schedule of background / in-flight steps, no longer than mu_o,
-   after which every call that had been made has returned (open collection) *)
-Theorem open_drain : forall n s,
-  inv s -> z_closed s = false -> mu_o s <= n ->
-  exists ls s', Forall (fun l => bg l = true) ls /\ length ls <= mu_o s /\
-                run c s ls = Some s' /\ ~ pending s' /\ z_closed s' = false /\ inv s'.
-Proof.
-  induction n as [|n IH]; intros s I Cl Hn.
-  - exists [], s. split; [constructor|]. split; [simpl; lia|]. split; [reflexivity|].
-    split; [|split; auto].
-    intros P. destruct (open_step s I Cl P) as (l & s' & _ & _ & D). lia.
-  - destruct (Nat.eq_dec (z_wwait s + z_wwoken s + z_wclcur s + z_wclold s + z_nsyn s + z_nasy s
-                           + nsync (z_q s) + z_pongs s) 0) as [Z|NZ].
-    + exists [], s. split; [constructor|]. split; [simpl; lia|]. split; [reflexivity|].
-      split; [unfold pending; lia|split; auto].
-    + assert (P : pending s) by (unfold pending; lia).
-      destruct (open_step s I Cl P) as (l & s1 & B & St & D).
-      assert (I1 : inv s1) by (eapply inv_step; eauto).
-      assert (Cl1 : z_closed s1 = false) by (eapply bg_keeps_open; eauto).
-      destruct (IH s1 I1 Cl1 ltac:(lia)) as (ls & s' & F & L & R & NP & Cl' & I').
-      exists (l :: ls), s'. split; [constructor; auto|]. split; [simpl; lia|].
-      split; [|split; [exact NP|split; auto]].
-      unfold run in *. simpl. unfold step in St. rewrite St. exact R.
-Qed.
-
-(* ------------------------------------------------------------------ *)
-(* (4) Close: once stopCh is closed, a bounded number of steps of the background
-   goroutines, of the callers in flight and of the closer itself brings everything
-   to rest *)
-Definition dMc (s : state) : nat :=
-  match z_mp s with
-  | MDone => 0 | MExit => 1 | MSelect => 2
-  | MCheck => if z_top s =? 0 then 3 else 10
-  | MReply => if z_top s =? 0 then 4 else 11
-  | MWaitOut _ => if z_top s =? 0 then 5 else 12
-  | MHandover => if z_top s =? 0 then 6 else 13
-  | MMerge => if z_top s =? 0 then 7 else 14
-  | MIngest => 8 | MDrain => 9 end.
-Definition dPc (s : state) : nat :=
-  match z_pp s with
-  | PDone => 0 | PChk => 1 | PTop | PWoken => 2 | PCloseOut _ => 3 | PPublish => 4
-  | PUpdate => 5 | _ => 9 end.
-Definition dCc (s : state) : nat :=
-  match z_cp s with CJoinM => 3 | CJoinP => 2 | CFinal => 1 | _ => 0 end.
-Definition mu_c (s : state) : nat :=
-  2 * z_wwoken s + z_wclcur s + z_wclold s + notif_pending s + dMc s + dPc s + dCc s.
-
-(* everything has come to rest: goroutines gone, Close returned, no call in flight *)
-Definition at_rest (s : state) : Prop :=
-  z_mp s = MDone /\ z_pp s = PDone /\ z_cp s = CRet /\
-  z_wwait s = 0 /\ z_wwoken s = 0 /\ z_wclcur s = 0 /\ z_wclold s = 0 /\ notif_pending s = 0.
-
-Ltac cunf := unfold mu_c, notif_pending, waitpong, dMc, dPc, dCc, writer_enter, broadcast_top in *; zs.
-Ltac cdec := subst; cunf; rwall; inj; zs; cbn [nsync length] in *; try lia; bool_cases; zs; b2p; try lia;
-  hyp_cases; b2p; try lia; try (exfalso; congruence).
-
-Lemma mu_c_bound s : mu_c s <= 2 * z_wwoken s + z_wclcur s + z_wclold s + notif_pending s + 26.
-Proof.
-  unfold mu_c, dMc, dPc, dCc. destruct (z_mp s); destruct (z_pp s); destruct (z_cp s);
-  try destruct (z_top s =? 0); lia.
-Qed.
-
-(* FULL STATEMENT (not closed in the time available; the cases z_mp s = MDone, i.e. the
-   persister's and the closer's last steps, are missing - they are straight-line code):
-     Theorem close_step s : inv s -> z_closed s = true -> 0 < mu_c s ->
-       exists l s', bg l = true /\ step c s l = Some s' /\ mu_c s' < mu_c s.
-   Proved: the same as long as the merger has not yet exited. *)
-Theorem close_step_partial s :
-  inv s -> z_closed s = true -> z_mp s <> MDone ->
-  exists l s', bg l = true /\ step c s l = Some s' /\ mu_c s' < mu_c s.
-Proof.
-  intros I Cl Hm. unfold inv in I.
-  assert (W0 : z_wwait s = 0).
-  { destruct I as (_&_&_&_&_&I4b&_). destruct (z_wwait s); auto.
-    assert (z_closed s = false) by (apply I4b; lia). congruence. }
-  destruct (0 <? notif_pending s) eqn:C0.
-  { b2p. destruct (close_releases_all s Cl C0) as (l & s' & L & St & Dn & _).
-    exists l, s'. split; [destruct l; try discriminate L; reflexivity|]. split; [exact St|].
-    assert (F : z_wwoken s' = z_wwoken s /\ z_wclcur s' = z_wclcur s /\ z_wclold s' = z_wclold s /\
-                z_mp s' = z_mp s /\ z_pp s' = z_pp s /\ z_cp s' = z_cp s /\ z_top s' = z_top s).
-    { destruct l; try discriminate L; step_cases St; zs; repeat split; reflexivity. }
-    destruct F as (F1&F2&F3&F4&F5&F6&F7).
-    unfold mu_c, dMc, dPc, dCc. rewrite F1, F2, F3, F4, F5, F6, F7. lia. }
-  destruct (0 <? z_wclcur s) eqn:C1.
-  { take s LWCloseInc; timeout 60 (dd cdec). }
-  destruct (0 <? z_wclold s) eqn:C2.
-  { take s LWCloseOld; timeout 60 (dd cdec). }
-  destruct (0 <? z_wwoken s) eqn:C3.
-  { take s LWRecheck; timeout 60 (dd cdec). }
-  destruct (z_mp s) eqn:Emp.
-  - take s LMReply; timeout 60 (dd cdec).
-  - take s LMCheck; timeout 60 (dd cdec).
-  - take s LMSelStop; timeout 60 (dd cdec).
-  - take s LMDrain; timeout 60 (dd cdec).
-  - take s LMIngest; timeout 60 (dd cdec).
-  - take s LMMergeOk; timeout 60 (dd cdec).
-  - (* MHandover *)
-    destruct (step c s LMHandover) as [s'|] eqn:Hs; [|exfalso; step_none Hs; ndec].
-    exists LMHandover, s'. split; [reflexivity|split; [exact Hs|]].
-    destruct (handover_mp _ _ Hs) as [(A1&A2&A3&A4&A5&A6&A7&A8&A9) M].
-    assert (F : z_cp s' = z_cp s /\ dPc s' <= dPc s).
-    { step_cases Hs; unfold dPc, broadcast_base; zs; bool_cases; zs; out_cases; zs;
-      pp_cases; zs; split; try reflexivity; try lia; try congruence. }
-    destruct F as [F1 F2].
-    unfold mu_c, notif_pending, waitpong, dMc, dCc. rewrite A1, A3, A4, A5, A6, A7, A8, A9, F1, Emp.
-    destruct M as [M|[g M]]; rewrite M; destruct (z_top s =? 0); lia.
-  - take s LMOutStop; timeout 60 (dd cdec).
-  - take s LMExit; timeout 60 (dd cdec).
-  - congruence.
-Qed.
 End Facts.
 
 (* ------------------------------------------------------------------ *)
@@ -907,11 +540,12 @@ Proof.
     eexists. split; [vm_compute; reflexivity|]. split; reflexivity.
 Qed.
 
-(* observation (not a C16 violation: no caller is blocked): unpersisted data can sit in
-   stackDirtyMid with the merger asleep and the persister waiting, until the next batch
-   or notification (the idle waker rescues it when MergerIdleRunTimeoutMS > 0): the
-   persister's wake-up test sees waitDirtyIncomingCh == nil between the merger's
-   skipped hand-over and its going to sleep *)
+(* Mut7 = the code before the repair of the persistence stall (683d401): the merger goes to
+   sleep although its last hand-over was skipped (persister busy) and the persister has
+   finished since.  The persister pings only a merger that is asleep already
+   (waitDirtyIncomingCh != nil): between the skipped hand-over and the sleep the test
+   fails, the persister waits, the merger goes to sleep: unpersisted data sits in
+   stackDirtyMid, nothing is enabled. *)
 Definition sched_persist_stall : list step_label :=
   [LMReply; LMCheck; LPTop;
    LWCall; LWCloseInc; LMSelInc; LMDrain; LMIngest; LMMergeOk; LMHandover; LPTop; LPChk;
@@ -919,12 +553,39 @@ Definition sched_persist_stall : list step_label :=
    LWCall; LWCloseInc; LMSelInc; LMDrain; LMIngest; LMMergeOk; LMHandover;
    LPUpdOk; LPPublish; LPCloseOut; LPTop; LMReply; LMCheck].
 
-Example persist_stall_reachable :
-  exists s, reachable_gen MutNone cfg_plain s /\ z_mid s = true /\ z_base s = false /\
-            z_mp s = MSelect /\ z_pp s = PWait /\ stuck MutNone cfg_plain s.
+Theorem persist_stall_mut7_refuted :
+  exists s, reachable_gen Mut7 cfg_plain s /\ z_closed s = false /\ z_mid s = true /\
+            z_base s = false /\ z_mp s = MSelect /\ z_armed s = true /\ z_pp s = PWait /\
+            z_q s = [] /\ stuck Mut7 cfg_plain s.
 Proof.
-  destruct (run_gen MutNone cfg_plain (init cfg_plain) sched_persist_stall) as [s|] eqn:E; [|vm_compute in E; discriminate].
+  destruct (run_gen Mut7 cfg_plain (init cfg_plain) sched_persist_stall) as [s|] eqn:E; [|vm_compute in E; discriminate].
   exists s. split; [exists sched_persist_stall; exact E|].
+  vm_compute in E. injection E as <-.
+  repeat split; try reflexivity. stuck_tac.
+Qed.
+
+(* the same schedule on the current code: the merger does not sleep, it retries the hand-over *)
+Example sched_mut7_current_ok :
+  exists s, run cfg_plain (init cfg_plain) sched_persist_stall = Some s /\
+            z_mp s = MDrain /\ step cfg_plain s LMDrain <> None.
+Proof.
+  destruct (run cfg_plain (init cfg_plain) sched_persist_stall) as [s|] eqn:E; [|vm_compute in E; discriminate].
+  exists s. split; auto. vm_compute in E. injection E as <-. split; [reflexivity|vm_compute; discriminate].
+Qed.
+
+(* candidate finding (error path): after a FAILED merge (collection_merger.go 142-144,
+   `continue OUTER`) the hand-over is skipped; if the persister is already waiting, the
+   merger goes to sleep with the unmerged stackDirtyMid unpersisted and nothing enabled *)
+Definition sched_stall_after_merge_failure : list step_label :=
+  [LMReply; LMCheck; LPTop; LWCall; LWCloseInc; LMSelInc; LMDrain; LMIngest; LMMergeFail;
+   LMReply; LMCheck].
+
+Example persist_stall_after_merge_failure :
+  exists s, reachable_gen MutNone cfg_plain s /\ z_closed s = false /\ z_mid s = true /\
+            z_base s = false /\ z_mp s = MSelect /\ z_pp s = PWait /\ stuck MutNone cfg_plain s.
+Proof.
+  destruct (run_gen MutNone cfg_plain (init cfg_plain) sched_stall_after_merge_failure) as [s|] eqn:E; [|vm_compute in E; discriminate].
+  exists s. split; [exists sched_stall_after_merge_failure; exact E|].
   vm_compute in E. injection E as <-.
   repeat split; try reflexivity. stuck_tac.
 Qed.
@@ -939,10 +600,13 @@ Example run_schedule_example :
 Proof. vm_compute. reflexivity. Qed.
 
 Print Assumptions reachable_inv.
+Print Assumptions reachable_nf_inv.
 Print Assumptions bounded_top2.
 Print Assumptions no_lost_wakeup.
 Print Assumptions no_block_under_lock.
 Print Assumptions after_close_execute_batch.
+Print Assumptions close_releases_all.
+Print Assumptions notify_after_close_returns.
 Print Assumptions no_block_under_lock_mut1_refuted.
 Print Assumptions deadlock_free_mut1_refuted.
 Print Assumptions bounded_top_mut2_refuted.
@@ -952,8 +616,4 @@ Print Assumptions exit_answers_all_mut5_refuted.
 Print Assumptions exit_answers_all.
 Print Assumptions close_releases_all_mut6_refuted.
 Print Assumptions async_notify_after_close_blocks_mut6_refuted.
-Print Assumptions close_releases_all.
-Print Assumptions notify_after_close_returns.
-Print Assumptions close_step_partial.
-Print Assumptions open_step.
-Print Assumptions open_drain.
+Print Assumptions persist_stall_mut7_refuted.
